@@ -68,13 +68,25 @@ CtxCode(s) == IF s.fault = "ctxc" THEN 1 ELSE 4
 \*  byte after the strike: a message that ends with exactly that byte may or may not count as sent)
 Sent(s, i) == EndOf(s, i) <= Cut(s)
 SurelySent(s, i) == IF CtxFault(s) THEN EndOf(s, i) <= Cut(s) - 1 ELSE Sent(s, i)
-SendOutcomes(s, i) == IF i = Poison(s) THEN {"internal"}
+\* fault "werr1" (handler side): only the write number cut + 1 is refused, the later ones succeed again.  The message that
+\* needed the refused write -- its prefix or its payload -- must be reported as failed (a Send whose prefix was refused
+\* writes no payload; the write count moves on by one only)
+RECURSIVE W1(_, _, _)
+W1(s, i, w) ==   \* [failed message index or 0] after messages 1..i, starting with w writes done
+  IF i > Len(s.sizes) THEN 0
+  ELSE IF w + 1 = s.cut + 1 THEN i                 \* the prefix write is the refused one
+  ELSE IF w + 2 = s.cut + 1 THEN i                 \* the payload write is
+  ELSE W1(s, i + 1, w + 2)
+FailedOnce(s) == W1(s, 1, 0)
+SendOutcomes(s, i) == IF s.fault = "werr1" THEN (IF i = FailedOnce(s) THEN {"fail"} ELSE {"ok"})
+                      ELSE IF i = Poison(s) THEN {"internal"}
                       ELSE IF SurelySent(s, i) THEN {"ok"}
                       ELSE IF Handler(s) THEN {"fail"}
                       ELSE (IF Sent(s, i) THEN {"ok"} ELSE {})
                            \cup (IF CtxFault(s) THEN {"eof", "ctx"} ELSE {"eof"})
 AllSent(s) == Total(s) <= Cut(s)
-FinalCodes(s) == IF Handler(s) THEN (IF AllSent(s) THEN {0} ELSE 1..16)
+FinalCodes(s) == IF s.fault = "werr1" THEN (IF FailedOnce(s) = 0 THEN {0} ELSE 1..16)
+                 ELSE IF Handler(s) THEN (IF AllSent(s) THEN {0} ELSE 1..16)
                  ELSE IF Poison(s) > 0 /\ s.kind \in {"unary", "server"} THEN {13}
                  ELSE IF CtxFault(s) THEN {CtxCode(s)} ELSE 1..16
 
